@@ -96,6 +96,45 @@ Section AsmLib.
     | r => AFailed (chan_err r)
     end.
 
+  (* ---------- resolveInterruptCompletedTasks: one collected task ----------
+       t.err != nil                          t_has_err x      (x : texec, the task's result)
+       info := isSubGraphInterrupt(t.err)    t_sub x          (Some (nested checkpoint, nested info))
+       errors.Is(t.err, InterruptAndRerun)   t_is_rerun x
+       return wrapGraphNodeError(k, t.err)   RStop (t_err_code x)
+       m[k] = info / append to p^ (k)       the effects ESub / ERerun / EAfter, named by the POSITION of the
+                                             parameter (first, second, third), as the call sites in run name them *)
+  Notation texec := (@texec V SCP SINFO).
+  Definition t_has_err (x : texec) : bool := match x with TDone _ => false | _ => true end.
+  Definition t_sub (x : texec) : option (SCP * SINFO) := match x with TSub c i => Some (c, i) | _ => None end.
+  Definition t_is_rerun (x : texec) : bool := match x with TRerun => true | _ => false end.
+  Definition t_err_code (x : texec) : N := match x with TFail e => e | _ => 0 end.
+
+  Inductive reff := ESub (k : N) (s : SCP * SINFO) | ERerun (k : N) | EAfter (k : N).
+  Inductive rstep := RStep (l : list reff) | RStop (e : N).
+  Record racc := mk_racc { ra_subs : list (N * (SCP * SINFO)); ra_rerun : list N; ra_after : list N }.
+  Definition apply_eff (a : racc) (e : reff) : racc :=
+    match e with
+    | ESub k s => mk_racc (puts (ra_subs a) [(k, s)]) (ra_rerun a) (ra_after a)
+    | ERerun k => mk_racc (ra_subs a) (set_puts (ra_rerun a) [k]) (ra_after a)
+    | EAfter k => mk_racc (ra_subs a) (ra_rerun a) (set_puts (ra_after a) [k])
+    end.
+  (* the loop: task by task, the first failure ends it *)
+  Fixpoint resolve_run (f : N * texec -> rstep) (l : list (N * texec)) (a : racc) : N + racc :=
+    match l with
+    | [] => inr a
+    | t :: l' => match f t with
+                 | RStop e => inl e
+                 | RStep effs => resolve_run f l' (fold_left apply_eff effs a)
+                 end
+    end.
+  Definition model_resolve_task (after_cfg : list N) (t : N * texec) : rstep :=
+    match snd t with
+    | TDone _ => RStep (if memN (fst t) after_cfg then [EAfter (fst t)] else [])
+    | TRerun => RStep [ERerun (fst t)]
+    | TSub c i => RStep [ESub (fst t) (c, i)]
+    | TFail e => RStop e
+    end.
+
   (* where the checkpoint goes *)
   Inductive adest := DParent | DStore | DNowhere.
   Definition model_dest (isSubGraph hasID : bool) : adest :=
@@ -104,6 +143,9 @@ End AsmLib.
 
 Arguments acp : clear implicits. Arguments ainfo : clear implicits. Arguments ares : clear implicits.
 Arguments atask : clear implicits. Arguments mk_atask {V}.
+Arguments reff : clear implicits. Arguments rstep : clear implicits. Arguments racc : clear implicits.
+Arguments ESub {SCP SINFO}. Arguments ERerun {SCP SINFO}. Arguments EAfter {SCP SINFO}.
+Arguments RStep {SCP SINFO}. Arguments RStop {SCP SINFO}. Arguments mk_racc {SCP SINFO}.
 Arguments mk_acp {V CS GS SCP}. Arguments mk_ainfo {GS SINFO}.
 Arguments AInterrupted {V CS GS SCP SINFO}. Arguments AFailed {V CS GS SCP SINFO}.
 
